@@ -14,7 +14,9 @@
    The eager task factory (Python >= 3.12) makes the tasks spawned by running handlers run inside the handler up to
    their first real suspension: a file is read between running(rec1) and running(rec2) unless a hook blocks. *)
 EXTENDS Mon_MasterLife, TLC
-CONSTANTS Cfgs          \* sequence of scenario classes: the cfg fields of the monitor + feat (enabled env actions) + maxops
+CONSTANTS Cfgs,         \* sequence of scenario classes: the cfg fields of the monitor + feat (enabled env actions) + maxops
+          CountsConcurrent  \* TRUE: replay.client.count also counts len(replay_tasks) (repair 24c0b3842, finding X08 F1);
+                            \* FALSE: the code before it (concurrency -1: count is 0 once the tasks are spawned)
 VARIABLES cfg,          \* the scenario class (chosen in Init)
           pc,           \* where run() is blocked: new | setup | wait | over (run() finished or scenario ended)
           ecOn,         \* ErrorCheck's log handler is installed (until finish())
@@ -86,8 +88,9 @@ FinishOne(c, i) ==
   IF cfg.conc = 1 /\ qs # {} THEN [c |-> [c1 EXCEPT ![Lowest(qs)] = "dial"], evs |-> Both("request", "c", Lowest(qs))]
   ELSE [c |-> c1, evs |-> <<>>]
 
-\* replay.client.count(): queue.qsize() + bool(inflight); with concurrency -1 inflight is reset right after the spawn
-CpCount == IF cfg.conc = 1 THEN Cardinality({i \in 1..Len(cst) : cst[i] # "fin"}) ELSE 0
+\* replay.client.count(): queue.qsize() + bool(inflight) + len(replay_tasks); with concurrency -1 the queue is drained
+\* into tasks at once and inflight is reset right after each spawn, so only replay_tasks keeps the count up
+CpCount == IF cfg.conc = 1 \/ CountsConcurrent THEN Cardinality({i \in 1..Len(cst) : cst[i] # "fin"}) ELSE 0
 KeepGoing == rd.st = "held" \/ CpCount > 0 \/ srv < cfg.sn \/ conns > 0
 WatchWanted == ~cfg.ks /\ (cfg.rk # "none" \/ cfg.cn > 0 \/ cfg.sn > 0)
 
